@@ -11,7 +11,7 @@ TRUSTED = ['Model/Data.v arrive (statement of reader behaviour, measured here)',
 ASSUMES = ['default na_values (the empty string and nan are NULL in every format); string-valued cells only']
 EX = mapcase.EX
 KINDS = ['csv', 'tsv', 'json', 'xml', 'parquet', 'feather', 'orc', 'xlsx', 'view', 'sqltable', 'sqlquery', 'frame', 'pydict', 'pyjson', 'pylist']
-POOL = ['a', 'b c', ' lead', 'trail ', '  both  ', 'q"uote', "it's", 'a,b', 'semi;colon', 'tab\there', 'pipe|x', '01', '007', '1.50', '1e3', '-0', 'true', 'TRUE', 'False', 'None', 'NULL', 'null', 'N/A',
+POOL = ['a', 'b c', ' lead', 'trail ', '  both  ', ' ', '   ', 'q"uote', "it's", 'a,b', 'semi;colon', 'tab\there', 'pipe|x', '01', '007', '1.50', '1e3', '-0', 'true', 'TRUE', 'False', 'None', 'NULL', 'null', 'N/A',
         'NaN', 'é', '日本', '😀', 'a\\b', '<tag>', 'a&b', '2020-01-01', '10:00', 'x' * 300, '{brace}', '#hash', '%41', "'apostrophe", '"', '""']
 
 
@@ -113,6 +113,29 @@ def run(ctx, res):
                                       [x[-60:] for x in (o[1] if o[0] == 'ok' else []) if w[0] == 'ok' and x not in w[1]][:3]), 'replay': {'case': rec['case']}})
         elif rec['model'][0] == 'ok' and not family.same(o, rec['model']) and not trig:
             res.disagreements.append({'what': 'reader model for kind %s differs from the implementation' % k, 'replay': rec['case']})
+    # the table behind a path may change between two materializations in one process: the second one must read the file as it is now
+    import os, shutil
+    from .. import common
+    wd = common.workdir()
+    for k in ['csv', 'tsv', 'json', 'xml', 'parquet', 'view', 'xlsx'] * ctx.scale(1, 6):
+        ta, tb = xml_safe(gen_table_case(ctx.rng)), xml_safe(gen_table_case(ctx.rng))
+        for t in (ta, tb):
+            t['sources'][0]['kind'] = k
+        tb['doc'] = ta['doc']; tb['cfg'] = ta['cfg']
+        da, db = os.path.join(wd, 'ow_a_%d' % res.evaluations), os.path.join(wd, 'ow_b_%d' % res.evaluations)
+        os.makedirs(da); os.makedirs(db)
+        cfg_a = mapcase.materialise_files(ta, da); mapcase.materialise_files(tb, db)
+        r = ctx.pool.map([{'fn': 'mat_overwrite', 'args': {'config': cfg_a, 'dir_a': da, 'dir_b': db}}], timeout=240, fresh=True)[0]
+        fresh_b = batch.run([tb], want_spec=False)[0]['impl']
+        shutil.rmtree(da, ignore_errors=True); shutil.rmtree(db, ignore_errors=True)
+        res.evaluations += 1
+        res.count('rewritten-file:' + k)
+        if not r.get('ok'):
+            res.disagreements.append({'what': 'mat_overwrite failed: %s' % str(r)[:300], 'replay': None}); continue
+        second = family.impl_outcome({'ok': True, 'result': r['result'][1]})
+        if not family.same(second, fresh_b):
+            res.violations.append({'key': None, 'sig': 'rewritten:' + k, 'what': 'a %s file rewritten between two materializations in one process: the second run gives %s, the table now in the file gives %s'
+                                   % (k, str(second)[:200], str(fresh_b)[:200]), 'replay': {'case': tb}})
     # a .csv file with another delimiter (semicolon) goes through the delimiter-sniffing fallback of _read_csv: tame cells
     # (no separators, quotes or blanks: the sniffer is a heuristic) whose lexical form a typed read would not keep
     TAME = ['a', 'b7', '007', '1.50', '20.00', '1e3', '-0', '3.14159265358979323846', 'true', 'None', 'x_y', '10', '2020-01-01']
